@@ -78,7 +78,7 @@ StatusReports ==
     valid |-> TRUE,
     bytes |-> Arr(2) \o UIntI(1) \o Arr(IF fr THEN 6 ELSE 4) \o Arr(4) \o Concat([i \in 1..4 |-> Item(i - 1 = w, wt, t)]) \o UIntI(r) \o EncEid(e) \o EncTs(ts, <<7>>)
               \o (IF fr THEN UInt(<<3>>) \o UInt(<<1, 0>>) ELSE <<>>), tail |-> 0]
-   : w \in 0..3, wt \in BOOLEAN, t \in {<<1>>, <<1, 0, 0, 0, 0>>}, r \in {0, 1, 9, 11, 255}, e \in {EA, EI(<<23>>, <<42>>), EN}, ts \in {<<>>, <<1, 0, 0>>}, fr \in BOOLEAN}
+   : w \in 0..3, wt \in BOOLEAN, t \in {<<>>, <<1>>, <<1, 0, 0, 0, 0>>, <<255, 255, 255, 255, 255, 255, 255, 255>>}, r \in {0, 1, 9, 11, 255}, e \in {EA, EI(<<23>>, <<42>>), EN}, ts \in {<<>>, <<1, 0, 0>>}, fr \in BOOLEAN}
 
 Cases == CASE Fam = "tcpcl" -> Tcpcl [] Fam = "discovery" -> Discovery [] Fam = "wam" -> WamGood [] Fam = "bbc" -> BbcFrag
            [] Fam = "bundle_id" -> BundleIds [] Fam = "status_report" -> StatusReports
